@@ -327,7 +327,8 @@ func c19PositionRun(w *Worker, lexeme, gap string, fieldIdx map[string]int, rep 
 			{"start column (bytes)", tok[interp.TokStartChar], wantStart},
 			{"start column (characters)", tok[interp.TokStartUtf8], wantUStart},
 		}
-		if !strings.HasPrefix(lexeme, "`") && !strings.Contains(text, "\n") {
+		ownEnd := !strings.HasPrefix(lexeme, "`") && !strings.Contains(text, "\n")
+		if ownEnd {
 			checks = append(checks,
 				struct {
 					what string
@@ -345,6 +346,45 @@ func c19PositionRun(w *Worker, lexeme, gap string, fieldIdx map[string]int, rep 
 					want string
 				}{"end column (characters) = start + length", tok[interp.TokEndUtf8], fmt.Sprintf("(+ %s %d)", wantUStart, utf8.RuneCountInString(text))})
 		}
+		// the token after it ("z"): its position shows whether the step left the
+		// counters in a state that again locates the current character
+		var zl, zs, zu string
+		if len(tok) > interp.TokLine {
+			var ztok []interp.Value
+			for k := 0; k < 4; k++ {
+				t2 := interp.Fields(w.E.Call(c, nextFn, lx))
+				if lit, ok := t2[interp.TokLiteral].(string); ok && lit == "z" {
+					ztok = t2
+					break
+				}
+			}
+			if ztok != nil {
+				before := gap + lexeme + " "
+				if n := strings.Count(before, "\n"); n == 0 {
+					zl, zs, zu = L.T, fmt.Sprintf("(+ %s %d)", C.T, len(before)), fmt.Sprintf("(+ %s %d)", U.T, utf8.RuneCountInString(before))
+				} else {
+					tail := before[strings.LastIndex(before, "\n")+1:]
+					zl, zs, zu = fmt.Sprintf("(+ %s %d)", L.T, n), fmt.Sprint(len(tail)), fmt.Sprint(utf8.RuneCountInString(tail))
+				}
+				checks = append(checks,
+					struct {
+						what string
+						got  interp.Value
+						want string
+					}{"line of the following token z", ztok[interp.TokLine], zl},
+					struct {
+						what string
+						got  interp.Value
+						want string
+					}{"start column (bytes) of the following token z", ztok[interp.TokStartChar], zs},
+					struct {
+						what string
+						got  interp.Value
+						want string
+					}{"start column (characters) of the following token z", ztok[interp.TokStartUtf8], zu})
+			}
+		}
+		nOwn := len(checks)
 		for _, ch := range checks {
 			eq := fmt.Sprintf("(= %s %s)", interp.IntTerm(ch.got), ch.want)
 			switch c.Valid(eq) {
@@ -386,11 +426,35 @@ func c19PositionRun(w *Worker, lexeme, gap string, fieldIdx map[string]int, rep 
 			}
 			t := toks[nPrefix]
 			f.Outputs = map[string]string{"token": fmt.Sprint(t)}
+			if strings.Contains(ch.what, "following token z") {
+				// compare the native position of the token z
+				var zt map[string]interface{}
+				for _, nt := range toks {
+					if nt["Literal"] == "z" && nt["Type"] == "IDENT" {
+						zt = nt
+					}
+				}
+				if zt == nil {
+					rep.unconfirmed(f)
+					return
+				}
+				f.Outputs["following token"] = fmt.Sprint(zt)
+				el, _ := interp.EvalInt(zl, model)
+				es, _ := interp.EvalInt(zs, model)
+				eu, _ := interp.EvalInt(zu, model)
+				if int64(zt["LineNumber"].(float64)) == el && int64(zt["StartCharIndex"].(float64)) == es && int64(zt["StartUtf8CharIndex"].(float64)) == eu {
+					rep.unconfirmed(f)
+					return
+				}
+				f.Confirmed = true
+				rep.violation(f)
+				return
+			}
 			wl, _ := interp.EvalInt(wantLine, model)
 			ws, _ := interp.EvalInt(wantStart, model)
 			wu, _ := interp.EvalInt(wantUStart, model)
 			okTok := int64(t["LineNumber"].(float64)) == wl && int64(t["StartCharIndex"].(float64)) == ws && int64(t["StartUtf8CharIndex"].(float64)) == wu
-			if len(checks) > 3 {
+			if nOwn > 3 && len(checks) > 3 && ownEnd {
 				okTok = okTok && int64(t["EndCharIndex"].(float64)) == ws+int64(len(text)) && int64(t["EndUtf8CharIndex"].(float64)) == wu+int64(utf8.RuneCountInString(text)) && int64(t["EndLineNumber"].(float64)) == wl
 			}
 			if okTok {
@@ -585,7 +649,11 @@ func RunC19(env *Env, rep *Report) {
 	jobs = kept
 	nLayout := len(jobs)
 	if len(missing) == 0 {
-		for _, lx := range c19Lexemes {
+		// positions also after raw sections and strings with multi-byte text
+		// and line breaks inside (the state they leave behind is checked through
+		// the position of the token that follows)
+		posLexemes := append(append([]string{}, c19Lexemes...), "`é`", "`a\né ポ`", "`\n`", "\"é ポ\"", "\"a\n é\"")
+		for _, lx := range posLexemes {
 			for _, g := range []string{"", " ", "\t  ", "\n", "\r\n ", "# c\n", "// é\n  ", "  #x\n\n\t", "\n\n"} {
 				jobs = append(jobs, job{lex: []string{lx}, pos: true, g: g})
 			}
